@@ -253,30 +253,70 @@ Definition has_name (items : list vattr) (d : attdef) : bool :=
 Lemma has_name_app a b d : has_name (a ++ b) d = has_name a d || has_name b d.
 Proof. apply existsb_app. Qed.
 
-Lemma add_defaults_spec : forall defs S N A,
-  (forall d, In d defs -> xd_value d = XdRequired -> has_name S d || has_name N d = true) ->
-  (forall d, In d defs -> has_name A d = false) ->
-  (forall d, In d defs -> pair_good (xd_local d) (xd_prefix d)) ->
-  NoDup (map def_name defs) ->
-  add_defaults (S ++ A) N defs = S ++ A ++ map vattr_of_def (filter (fun d => is_value d && negb (has_name S d || has_name N d)) defs).
+Lemma has_push A d d' : has_name A d' = false -> def_name d <> def_name d' ->
+  has_name (A ++ [vattr_of_def d]) d' = false.
 Proof.
-  induction defs as [|d defs IH]; intros S N A Hreq HA Hg Hnd; [cbn [add_defaults filter map]; now rewrite app_nil_r|].
-  inversion Hnd as [|? ? Hd Hnd']; subst. cbn [add_defaults filter]. fold (has_name (S ++ A) d) (has_name N d). rewrite has_name_app, (HA d (or_introl eq_refl)), orb_false_r.
-  assert (Hrest : forall A', (forall d', In d' defs -> has_name A' d' = false) ->
-            add_defaults (S ++ A') N defs = S ++ A' ++ map vattr_of_def (filter (fun d0 => is_value d0 && negb (has_name S d0 || has_name N d0)) defs)).
-  { intros A' HA'. apply IH; [intros d' Hd' Hr; apply Hreq; [right; exact Hd'|exact Hr]|exact HA'|intros d' Hd'; apply Hg; right; exact Hd'|exact Hnd']. }
-  rewrite <- andb_assoc, <- negb_orb.
-  unfold is_implied, is_value. destruct (xd_value d) as [| |fx vs] eqn:Ev; cbn [negb andb].
-  - rewrite (Hreq d (or_introl eq_refl) Ev). cbn [negb andb]. apply Hrest. intros d' Hd'. apply HA. right. exact Hd'.
-  - apply Hrest. intros d' Hd'. apply HA. right. exact Hd'.
-  - destruct (has_name S d || has_name N d) eqn:ES; cbn [negb].
-    + apply Hrest. intros d' Hd'. apply HA. right. exact Hd'.
-    + cbn [map]. rewrite <- app_assoc. rewrite (Hrest (A ++ [vattr_of_def d])).
-      * rewrite <- app_assoc. reflexivity.
-      * intros d' Hd'. rewrite has_name_app, (HA d' (or_intror Hd')). cbn [orb has_name existsb vattr_of_def va_local va_prefix]. rewrite orb_false_r.
-        destruct (qname_eq (xd_local d) (xd_prefix d) (xd_local d') (xd_prefix d')) eqn:E; [|reflexivity]. exfalso.
-        apply qname_eq_eq in E. destruct E as [E1 E2]. apply Hd. unfold def_name at 1. rewrite E1, E2. apply (in_map def_name). exact Hd'.
+  intros HA Hne. rewrite has_name_app, HA. cbn [orb has_name existsb vattr_of_def va_local va_prefix]. rewrite orb_false_r.
+  destruct (qname_eq (xd_local d) (xd_prefix d) (xd_local d') (xd_prefix d')) eqn:E; [|reflexivity]. exfalso.
+  apply qname_eq_eq in E. destruct E as [E1 E2]. apply Hne. unfold def_name. now rewrite E1, E2.
 Qed.
+
+(** Element::attributes after bf629dc: the definitions with a value that are no namespace declarations and not written *)
+Lemma add_defaults_spec : forall defs S A,
+  (forall d, In d defs -> xd_value d = XdRequired -> def_namespace d = false -> has_name S d = true) ->
+  (forall d, In d defs -> has_name A d = false) ->
+  NoDup (map def_name defs) ->
+  add_defaults (S ++ A) defs = S ++ A ++ map vattr_of_def (filter (fun d => is_value d && negb (def_namespace d) && negb (has_name S d)) defs).
+Proof.
+  induction defs as [|d defs IH]; intros S A Hreq HA Hnd; [cbn [add_defaults filter map]; now rewrite app_nil_r|].
+  inversion Hnd as [|? ? Hd Hnd']; subst. cbn [add_defaults filter]. fold (has_name (S ++ A) d). rewrite has_name_app, (HA d (or_introl eq_refl)), orb_false_r.
+  assert (Hrest : forall A', (forall d', In d' defs -> has_name A' d' = false) ->
+            add_defaults (S ++ A') defs = S ++ A' ++ map vattr_of_def (filter (fun d0 => is_value d0 && negb (def_namespace d0) && negb (has_name S d0)) defs)).
+  { intros A' HA'. apply IH; [intros d' Hd' Hr Hn; apply Hreq; [right; exact Hd'|exact Hr|exact Hn]|exact HA'|exact Hnd']. }
+  assert (Hkeep : forall d', In d' defs -> has_name A d' = false) by (intros d' Hd'; apply HA; right; exact Hd').
+  assert (Hpush : forall d', In d' defs -> has_name (A ++ [vattr_of_def d]) d' = false).
+  { intros d' Hd'. apply has_push; [exact (Hkeep d' Hd')|]. intros E. apply Hd. rewrite E. apply (in_map def_name). exact Hd'. }
+  unfold is_implied, is_value.
+  destruct (xd_value d) as [| |fx vs] eqn:Ev; destruct (def_namespace d) eqn:En; destruct (has_name S d) eqn:ES; cbn [negb andb app map];
+    try (apply Hrest; exact Hkeep).
+  - exfalso. rewrite (Hreq d (or_introl eq_refl) Ev En) in ES. discriminate.
+  - rewrite <- app_assoc. rewrite (Hrest (A ++ [vattr_of_def d]) Hpush). rewrite <- app_assoc. reflexivity.
+Qed.
+
+(** Element::namespace_attributes after bf629dc: the namespace declarations with a default value that are not written *)
+Lemma add_ns_defaults_spec : forall defs N A,
+  (forall d, In d defs -> has_name A d = false) ->
+  NoDup (map def_name defs) ->
+  add_ns_defaults (N ++ A) defs = N ++ A ++ map vattr_of_def (filter (fun d => is_value d && def_namespace d && negb (has_name N d)) defs).
+Proof.
+  induction defs as [|d defs IH]; intros N A HA Hnd; [cbn [add_ns_defaults filter map]; now rewrite app_nil_r|].
+  inversion Hnd as [|? ? Hd Hnd']; subst. cbn [add_ns_defaults filter]. fold (has_name (N ++ A) d). rewrite has_name_app, (HA d (or_introl eq_refl)), orb_false_r.
+  assert (Hrest : forall A', (forall d', In d' defs -> has_name A' d' = false) ->
+            add_ns_defaults (N ++ A') defs = N ++ A' ++ map vattr_of_def (filter (fun d0 => is_value d0 && def_namespace d0 && negb (has_name N d0)) defs)).
+  { intros A' HA'. apply IH; [exact HA'|exact Hnd']. }
+  assert (Hkeep : forall d', In d' defs -> has_name A d' = false) by (intros d' Hd'; apply HA; right; exact Hd').
+  assert (Hpush : forall d', In d' defs -> has_name (A ++ [vattr_of_def d]) d' = false).
+  { intros d' Hd'. apply has_push; [exact (Hkeep d' Hd')|]. intros E. apply Hd. rewrite E. apply (in_map def_name). exact Hd'. }
+  unfold is_value_def, is_value.
+  destruct (xd_value d) as [| |fx vs] eqn:Ev; destruct (def_namespace d) eqn:En; destruct (has_name N d) eqn:ES; cbn [negb andb app map];
+    try (apply Hrest; exact Hkeep).
+  rewrite <- app_assoc. rewrite (Hrest (A ++ [vattr_of_def d]) Hpush). rewrite <- app_assoc. reflexivity.
+Qed.
+
+(** a written attribute and a definition with the same qualified name are namespace declarations together *)
+Lemma has_name_ns (its : list attr) (b : bool) d :
+  (forall x, In x its -> attr_namespace x = b) -> def_namespace d = negb b -> has_name (map vattr_of its) d = false.
+Proof.
+  intros H Hd. unfold has_name. induction its as [|x r IH]; [reflexivity|]. cbn [map existsb].
+  rewrite IH by (intros y Hy; apply H; right; exact Hy). rewrite orb_false_r.
+  destruct (qname_eq (va_local (vattr_of x)) (va_prefix (vattr_of x)) (xd_local d) (xd_prefix d)) eqn:E; [|reflexivity].
+  apply qname_eq_eq in E. cbn [vattr_of va_local va_prefix] in E. destruct E as [E1 E2].
+  pose proof (H x (or_introl eq_refl)) as Hx. unfold attr_namespace in Hx. unfold def_namespace in Hd. rewrite E1, E2 in Hx. rewrite Hx in Hd.
+  destruct b; discriminate.
+Qed.
+
+Lemma filter_filter_and {A} (p q : A -> bool) l : filter q (filter p l) = filter (fun x => p x && q x) l.
+Proof. induction l as [|x l IH]; [reflexivity|]. cbn [filter]. destruct (p x); cbn [filter andb]; [destruct (q x)|]; now rewrite IH. Qed.
 
 Section Rows.
 Variable dt : option doctype.
@@ -405,32 +445,56 @@ Proof.
   { clear - HR. induction HR as [|v y l l' (_ & Nv & _) _ IH]; [reflexivity|]. cbn [map]. unfold def_name at 1. now rewrite Nv, IH. }
   assert (Hgd : forall d, In d defs -> pair_good (xd_local d) (xd_prefix d)).
   { clear - HR. induction HR as [|v y l l' (Gv & _) _ IH]; intros d Hd; [destruct Hd|]. destruct Hd as [<-|Hd]; [exact Gv|exact (IH d Hd)]. }
-  (* Element::attributes *)
-  assert (Hadd : element_attributes defs attrs' = map vattr_of (filter (fun x' => negb (attr_namespace x')) attrs')
-                   ++ map vattr_of_def (filter (fun d => is_value d && negb (has_name (map vattr_of (filter (fun x' => negb (attr_namespace x')) attrs')) d
-                                                                                  || has_name (map vattr_of (filter attr_namespace attrs')) d)) defs)).
-  { unfold element_attributes.
-    pose proof (add_defaults_spec defs (map vattr_of (filter (fun x' => negb (attr_namespace x')) attrs')) (map vattr_of (filter attr_namespace attrs')) []) as Hs.
+  (* Element::attributes and namespace_attributes (after bf629dc), brought to the shape "written ++ defaults not written" *)
+  set (Sx := map vattr_of (filter (fun x' => negb (attr_namespace x')) attrs')) in *.
+  set (Nx := map vattr_of (filter attr_namespace attrs')) in *.
+  assert (HhS : forall d, def_namespace d = true -> has_name Sx d = false).
+  { intros d Hd. unfold Sx. apply (has_name_ns _ false); [|exact Hd]. intros x Hx. apply filter_In in Hx. destruct Hx as [_ Hx]. now destruct (attr_namespace x). }
+  assert (HhN : forall d, def_namespace d = false -> has_name Nx d = false).
+  { intros d Hd. unfold Nx. apply (has_name_ns _ true); [|exact Hd]. intros x Hx. apply filter_In in Hx. now destruct Hx as [_ Hx]. }
+  assert (Hadd : element_attributes defs attrs' = Sx ++ map vattr_of_def (filter (fun d => is_value d && negb (def_namespace d) && negb (has_name Sx d)) defs)).
+  { unfold element_attributes. fold Sx.
+    pose proof (add_defaults_spec defs Sx []) as Hs.
     rewrite app_nil_r in Hs. cbn [app] in Hs.
-    apply Hs; [|intros; reflexivity|exact Hgd|rewrite Hnames; exact Hnds].
-    intros d Hd Hr. rewrite (Hgd0 d (Hgd d Hd)).
+    apply Hs; [|intros; reflexivity|rewrite Hnames; exact Hnds].
+    intros d Hd Hr Hn. pose proof (Hgd0 d (Hgd d Hd)) as Hm. fold Sx Nx in Hm. rewrite (HhN d Hn), orb_false_r in Hm. rewrite Hm.
     clear - HR Hokb Hd Hr. induction HR as [|v y l l' Hvy _ IH]; [destruct Hd|]. cbn [forallb] in Hokb. apply andb_prop in Hokb. destruct Hokb as [Hy Hl].
     destruct Hd as [<-|Hd]; [|exact (IH Hl Hd)]. destruct Hvy as (_ & Nv & _ & Dv). rewrite Hr in Dv. destruct (snd y); try destruct Dv. unfold def_name. rewrite <- Nv. exact Hy. }
+  assert (HaddN : namespace_attributes defs attrs' = Nx ++ map vattr_of_def (filter (fun d => is_value d && def_namespace d && negb (has_name Nx d)) defs)).
+  { unfold namespace_attributes. fold Nx. pose proof (add_ns_defaults_spec defs Nx []) as Hs. rewrite app_nil_r in Hs. cbn [app] in Hs.
+    apply Hs; [intros; reflexivity|rewrite Hnames; exact Hnds]. }
+  assert (Hperm : Permutation (namespace_attributes defs attrs' ++ element_attributes defs attrs')
+                              (Nx ++ Sx ++ map vattr_of_def (filter (fun d => is_value d && negb (has_name Sx d || has_name Nx d)) defs))).
+  { rewrite HaddN, Hadd.
+    set (Pold := fun d => is_value d && negb (has_name Sx d || has_name Nx d)).
+    assert (E1 : filter (fun d => is_value d && def_namespace d && negb (has_name Nx d)) defs = filter def_namespace (filter Pold defs)).
+    { rewrite filter_filter_and. apply filter_ext. intros d. unfold Pold. destruct (def_namespace d) eqn:En.
+      - rewrite (HhS d En). cbn [orb]. now rewrite !andb_true_r.
+      - now rewrite !andb_false_r. }
+    assert (E2 : filter (fun d => is_value d && negb (def_namespace d) && negb (has_name Sx d)) defs = filter (fun d => negb (def_namespace d)) (filter Pold defs)).
+    { rewrite filter_filter_and. apply filter_ext. intros d. unfold Pold. destruct (def_namespace d) eqn:En; cbn [negb].
+      - now rewrite !andb_false_r.
+      - rewrite (HhN d En), orb_false_r. now rewrite !andb_true_r. }
+    rewrite E1, E2.
+    transitivity (Nx ++ Sx ++ (map vattr_of_def (filter def_namespace (filter Pold defs)) ++ map vattr_of_def (filter (fun d => negb (def_namespace d)) (filter Pold defs)))).
+    - rewrite <- app_assoc. apply Permutation_app_head. rewrite !app_assoc. apply Permutation_app_tail. apply Permutation_app_comm.
+    - apply Permutation_app_head. apply Permutation_app_head. rewrite <- map_app. apply Permutation_map. apply filter_partition_perm. }
   (* the specification's rows *)
-  unfold attr_rows. cbv zeta. fold defs. rewrite Hadd. unfold Infoset.attr_tokens. cbv zeta. fold sdefs.
+  unfold attr_rows. cbv zeta. fold defs. unfold Infoset.attr_tokens. cbv zeta. fold sdefs.
   set (L1 := map (fun '(a0, v) => (a0, Infoset.TAttr true a0 (Infoset.type_norm (match find (fun d => W.str_eqb (fst (fst d)) a0) sdefs with Some (_, ty, _) => ty | None => W.ATCData end) (W.av_value F en v)))) (map x_att a)).
   set (L2 := map (fun '(a0, v) => (a0, Infoset.TAttr false a0 (Infoset.type_norm (match find (fun d => W.str_eqb (fst (fst d)) a0) sdefs with Some (_, ty, _) => ty | None => W.ATCData end) (W.av_value F en v)))) (W.defaulted_atts sub (d_qname n) (map x_att a))).
   assert (EL1 : L1 = map (srow sdefs true) (map x_att a)) by (unfold L1; apply map_ext; intros [a0 v]; reflexivity).
   assert (EL2 : L2 = map (srow sdefs false) (W.defaulted_atts sub (d_qname n) (map x_att a))) by (unfold L2; apply map_ext; intros [a0 v]; reflexivity).
   apply rows_sorted.
-  - rewrite app_assoc, !map_app. apply Permutation_app.
+  - etransitivity; [apply Permutation_map; exact Hperm|].
+    rewrite app_assoc, !map_app. apply Permutation_app.
     + (* specified *)
-      unfold namespace_attributes. rewrite !map_map, <- map_app. etransitivity; [apply Permutation_map; apply filter_partition_perm|].
+      unfold Nx, Sx. rewrite !map_map, <- map_app. etransitivity; [apply Permutation_map; apply filter_partition_perm|].
       rewrite EL1, map_map. clear - Hspec. induction Hspec as [|x x' l l' (E1 & _) _ IH]; [constructor|]. cbn [map]. rewrite E1. constructor. exact IH.
     + (* defaults *)
       rewrite EL2, !map_map. unfold W.defaulted_atts. fold sdefs. apply Permutation_refl'.
       assert (Hmem : forall d, In d defs -> is_value d = true ->
-                (fun d0 => has_name (map vattr_of (filter (fun x' => negb (attr_namespace x')) attrs')) d0 || has_name (map vattr_of (filter attr_namespace attrs')) d0) d
+                (fun d0 => has_name Sx d0 || has_name Nx d0) d
                 = W.mem (def_name d) (map fst (map x_att a))).
       { intros d Hd _. cbv beta. rewrite (Hgd0 d (Hgd d Hd)), map_map. reflexivity. }
       exact (defaults_rows defs sdefs _ _ HR defs sdefs HR Hmem).
